@@ -19,13 +19,17 @@ Property theorems (everything else in this file is a helper lemma or a non-vacui
   syntax: `varSyntax_colon`, `varSyntax_braceLazy`, `varSyntax_braceGreedy`) and `matchNodes_denK`
 * binding (variables end at '/' or the end, `*` last): `keyMatch4_binding`, `keyGet2_binding`, `keyGet3_binding`,
   `keyGet2_star`, `bindCheck_spec`, `pickGroup_spec`; through `matchNodes_caps` (unique match, greedy and lazy) and
-  `names_repl`; declaratively `capsOf_iff`, `keyMatch4_declarative`, `keyMatch4_total`; `keyMatch4_eq_spec`, `keyGet2_eq_spec`, `keyGet3_eq_spec`: the driver's spec column
+  `names_repl`; declaratively `capsOf_iff`, `keyMatch4_declarative`, `keyMatch4_total`, `keyGet2_declarative`, `keyGet3_declarative`; `keyMatch4_eq_spec`, `keyGet2_eq_spec`, `keyGet3_eq_spec`: the driver's spec column
 * ipMatch (IPv4): `ipMatch_v4`, `ipMatch_v4_addr`, `ipMatch_bad_address`, `sameBlock_shift`
 
-Hypotheses that are NOT removable on the current code: `noNL k` (a key without line feed; open finding F21-NL: CPython's
-`$` and `.`), the documented-form predicates (`docTok2`/`tok3`/`tok5 = some _`, `detForm`): outside them `re`'s own
+* soundness for EVERY key, line feeds included (after `fix: … anchor the pattern with \Z`, F21-NLa):
+  `keyMatch2_sound`, `keyMatch3_sound`, `keyMatch5_sound` (never raises, never `True` outside the denotation)
+
+Hypotheses that are NOT removable on the current code: `noNL k` in the completeness direction (a key without line
+feed; open finding F21-NLb: `*` is rewritten to `.*` and CPython's `.` does not match a line feed), the documented-form predicates (`docTok2`/`tok3`/`tok5 = some _`, `detForm`): outside them `re`'s own
 semantics applies (F21: `keyMatch3 k "*"` raises; `{x}/*{x}`), see the `example`s next to the theorems.
 -/
+set_option linter.unusedSimpArgs false
 namespace Casbin.C13
 open Casbin.Builtin Casbin.Builtin.Spec
 
@@ -2077,5 +2081,147 @@ theorem keyMatch4_total (k p : Str) (ts : List KTok) (hdoc : tok5 p = some ts) (
   cases capsOf ts k with
   | none => exact Or.inr rfl
   | some caps => cases bindCheck [] ((namesVar varLenBraceGreedy nameBrace 0 p).zip caps) <;> simp
+
+/-- **keyGet2**, declaratively: when the key decomposes along the pattern with bindings `caps`, the answer is the
+    text bound by the first variable named `v` (empty if there is none); when it does not decompose, the empty text -/
+theorem keyGet2_declarative (k p v : Str) (ts : List KTok) (hdoc : tokVar varLenColon okAny 0 p = some ts)
+    (hd : detForm ts = true) (hk : noNL k = true) :
+    (∀ caps, DenotesKB ts k caps →
+      keyGet2 k p v = .ok ((((namesVar varLenColon nameColon 0 p).zip caps).lookup v).getD [])) ∧
+    ((¬ ∃ caps, DenotesKB ts k caps) → keyGet2 k p v = .ok []) := by
+  rw [keyGet2_binding k p v ts hdoc hd hk]
+  constructor
+  · intro caps h
+    rw [(capsOf_iff ts k caps hd).2 h]
+  · intro h
+    cases hc : capsOf ts k with
+    | none => rfl
+    | some caps => exact absurd ⟨caps, (capsOf_iff ts k caps hd).1 hc⟩ h
+
+/-- **keyGet3**, declaratively (as keyGet2, `{name}` variables) -/
+theorem keyGet3_declarative (k p v : Str) (ts : List KTok) (hdoc : tok3 p = some ts)
+    (hd : detForm ts = true) (hk : noNL k = true) :
+    (∀ caps, DenotesKB ts k caps →
+      keyGet3 k p v = .ok ((((namesVar varLenBraceLazy nameBrace 0 p).zip caps).lookup v).getD [])) ∧
+    ((¬ ∃ caps, DenotesKB ts k caps) → keyGet3 k p v = .ok []) := by
+  rw [keyGet3_binding k p v ts hdoc hd hk]
+  constructor
+  · intro caps h
+    rw [(capsOf_iff ts k caps hd).2 h]
+  · intro h
+    cases hc : capsOf ts k with
+    | none => rfl
+    | some caps => exact absurd ⟨caps, (capsOf_iff ts k caps hd).1 hc⟩ h
+
+/-- the names the code extracts are the texts between the delimiters: an instance on the documentation's example -/
+example : namesVar varLenBraceGreedy nameBrace 0 "/parent/{id}/child/{id}".toList = ["id".toList, "id".toList] := by
+  decide
+example : namesVar varLenColon nameColon 0 "/r/:res/:id".toList = ["res".toList, "id".toList] := by decide
+
+/-! ### soundness for EVERY key (line feeds included): never true for a key outside the pattern -/
+
+theorem runB_mono (ok ok' : Char → Bool) (k k' : Str → Bool) (cs : Bool) (s : Str)
+    (hok : ∀ c, ok c = true → ok' c = true) (hk : ∀ x, k x = true → k' x = true)
+    (h : runB ok k cs s = true) : runB ok' k' cs s = true := by
+  induction s generalizing cs with
+  | nil => simp only [runB, Bool.and_eq_true] at h ⊢; exact ⟨h.1, hk _ h.2⟩
+  | cons c s ih =>
+    simp only [runB, Bool.or_eq_true, Bool.and_eq_true] at h ⊢
+    rcases h with ⟨h1, h2⟩ | ⟨h1, h2⟩
+    · exact Or.inl ⟨hok c h1, ih true h2⟩
+    · exact Or.inr ⟨h1, hk _ h2⟩
+
+theorem runB_any (k : Str → Bool) (s : Str) : runB (fun _ => true) k true s = anySuffix k s := by
+  induction s with
+  | nil => simp [runB, anySuffix]
+  | cons c s ih => simp [runB, anySuffix, ih, Bool.or_comm]
+
+/-- a successful match implies the denotation, whatever the key contains -/
+theorem matchNodes_sound (ts : List KTok) (s : Str)
+    (h : (matchNodes (ts.map (nodeOfV vnPlain)) s).isSome = true) : denK ts s = true := by
+  induction ts generalizing s with
+  | nil =>
+    simp only [List.map_nil, matchNodes, atEnd] at h
+    simp only [denK]
+    cases hs : s.isEmpty <;> simp_all
+  | cons t ts ih =>
+    cases t with
+    | lit c =>
+      cases s with
+      | nil => simp [matchNodes, nodeOfV] at h
+      | cons x s' =>
+        simp only [List.map_cons, matchNodes, nodeOfV, Atom.ok] at h
+        simp only [denK]
+        by_cases hx : x = c
+        · subst hx
+          simp only [beq_self_eq_true, if_true, Option.isSome_map, Bool.true_and] at h ⊢
+          exact ih s' h
+        · have : (x == c) = false := by simp [hx]
+          simp [this] at h
+    | star =>
+      simp only [List.map_cons, matchNodes, nodeOfV, Option.isSome_map, repG_isSome] at h
+      simp only [denK]
+      rw [← runB_any]
+      exact runB_mono _ _ _ _ true s (fun _ _ => rfl) (fun x hx => ih x hx) h
+    | var =>
+      have e1 : vnPlain.q = .plus := rfl
+      have e2 : vnPlain.atom = .notSlash := rfl
+      simp only [List.map_cons, matchNodes, nodeOfV, e1, e2, Option.isSome_map, repG_isSome] at h
+      cases s with
+      | nil => simp [runB] at h
+      | cons x s' =>
+        simp only [runB, Bool.false_and, Bool.or_false, Bool.and_eq_true] at h
+        simp only [denK, Bool.and_eq_true]
+        refine ⟨by simpa [Atom.ok] using h.1, ?_⟩
+        rw [← runB_notSlash]
+        exact runB_mono _ _ _ _ true s' (fun _ hc => hc) (fun x hx => ih x hx) h.2
+
+theorem reMatchBody_sound (body : Str) (ts : List KTok) (k : Str)
+    (hp : ∀ fuel, body.length < fuel → parseRe fuel body = .ok (ts.map (nodeOfV vnPlain))) :
+    ∃ b, asBool (reMatchBody body k) = .ok b ∧ (b = true → denK ts k = true) := by
+  refine ⟨(matchNodes (ts.map (nodeOfV vnPlain)) k).isSome, ?_, matchNodes_sound ts k⟩
+  simp [asBool, reMatchBody, hp (body.length + 1) (by omega), Out.map]
+
+/-- **keyMatch2, soundness for every key**: on a documented-form pattern the function never raises and never
+    answers `True` for a key the pattern does not denote — line feeds in the key included -/
+theorem keyMatch2_sound (k p : Str) (ts : List KTok) (hdoc : docTok2 p = some ts) :
+    ∃ b, keyMatch2 k p = .ok b ∧ (b = true → denK ts k = true) := by
+  unfold docTok2 at hdoc
+  split at hdoc
+  · rename_i hp; subst hp
+    simp at hdoc; subst hdoc
+    have hr : rewrite2 ['*'] = capAll := by decide
+    have hparse : parseRe (capAll.length + 1) capAll = .ok [{ atom := .dot, q := .star, cap := true }] := by decide
+    refine ⟨(matchNodes [{ atom := .dot, q := .star, cap := true }] k).isSome, ?_, ?_⟩
+    · simp only [keyMatch2, hr, asBool, reMatchBody, hparse, Out.map]
+    · intro h
+      apply matchNodes_sound [.star] k
+      simpa [matchNodes, nodeOfV, Option.isSome_map] using h
+  · obtain ⟨hH, hP⟩ := compile_tokVar varLenColon okAny reNotSlashEsc vnPlain varSyntax_colon
+      parseItem_notSlashEsc '[' _ rfl (by decide) 0 p ts hdoc (by simp [noSlash])
+    have hr : rewrite2 p = subVar varLenColon reNotSlashEsc 0 (replSlashStar p) := by
+      simp [rewrite2, headOK_ne_star _ hH]
+    rw [keyMatch2, hr]
+    exact reMatchBody_sound _ ts k hP
+
+theorem keyMatch3_sound (k p : Str) (ts : List KTok) (hdoc : tok3 p = some ts) :
+    ∃ b, keyMatch3 k p = .ok b ∧ (b = true → denK ts k = true) := by
+  obtain ⟨_, hP⟩ := compile_tokVar varLenBraceLazy okAny reNotSlashEsc vnPlain varSyntax_braceLazy
+    parseItem_notSlashEsc '[' _ rfl (by decide) 0 p ts hdoc (by simp [noSlash])
+  rw [keyMatch3, rewrite3]
+  exact reMatchBody_sound _ ts k hP
+
+theorem keyMatch5_sound (k p : Str) (ts : List KTok) (hdoc : tok5 p = some ts) :
+    ∃ b, keyMatch5 k p = .ok b ∧ (b = true → denK ts (dropQuery k) = true) := by
+  obtain ⟨_, hP⟩ := compile_tokVar varLenBraceGreedy okBraceName reNotSlash vnPlain varSyntax_braceGreedy
+    parseItem_notSlash '[' _ rfl (by decide) 0 p ts hdoc (by simp [noSlash])
+  rw [keyMatch5, rewrite5]
+  exact reMatchBody_sound _ ts (dropQuery k) hP
+
+/-- the trailing line feed is no longer accepted (it was, with `$`) -/
+example : keyMatch2 "/a\n".toList "/a".toList = .ok false := by decide
+/-- what remains (open finding): `*` is `.*`, and `.` does not match a line feed -/
+example : keyMatch2 "/a/b\nc".toList "/a/*".toList = .ok false ∧
+    (docTok2 "/a/*".toList).map (fun ts => denK ts "/a/b\nc".toList) = some true := by decide
 
 end Casbin.C13
